@@ -123,7 +123,8 @@ var (
 // ParseResponse parses a cached HTTP response entry from binary data and reconstructs
 // a [Response] using the provided request for context. Returns an error if parsing fails.
 func ParseResponse(data []byte, req *http.Request) (resp *Response, err error) {
-	reader := bufio.NewReader(bytes.NewReader(data))
+	raw := bytes.NewReader(data)
+	reader := bufio.NewReader(raw)
 	metaLine, err := reader.ReadBytes('\n')
 	if err != nil {
 		return nil, errors.Join(errReadBytes, fmt.Errorf("failed to read metadata line: %w", err))
@@ -141,6 +142,11 @@ func ParseResponse(data []byte, req *http.Request) (resp *Response, err error) {
 	r, err := http.ReadResponse(reader, req)
 	if err != nil {
 		return nil, errors.Join(errInvalidResponse, fmt.Errorf("failed to read response: %w", err))
+	}
+	if left := int64(raw.Len() + reader.Buffered()); r.ContentLength > left {
+		// The entry announces more body than it holds (a file cut short): it
+		// is damaged, not a response that can be served.
+		return nil, errors.Join(errInvalidResponse, fmt.Errorf("body of %d bytes announced, %d present", r.ContentLength, left))
 	}
 	// net/http keeps "Connection: close" on HTTP/1.0 responses and on entries
 	// dumped without a length: hop-by-hop fields are never replayed (RFC 9111 §3.1).
